@@ -222,7 +222,7 @@ Theorem schema_semantics :
   (* minimum / maximum are inclusive *)
   (forall m z, minimum_ok (VInt m) (JInt z) = true <-> m <= z)
   /\ (forall m z, maximum_ok (VInt m) (JInt z) = true <-> z <= m)
-  (* a boolean is not a number: neither "number" nor "integer" admit it, minimum / maximum do not look at it *)
+  (* a boolean is not a number: neither "number" nor "integer" allow it, minimum / maximum do not look at it *)
   /\ (forall b, is_type TyNumber (JBool b) = false /\ is_type TyInteger (JBool b) = false)
   /\ (forall m b, minimum_ok m (JBool b) = true /\ maximum_ok m (JBool b) = true)
   (* a number is not a boolean *)
